@@ -404,7 +404,7 @@ def c07_10(ctx):
             seen.add(k)
             if conv[k] is not None and p.text() != NS(conv[k]):
                 ctx.fail(f, p.node, 'a value with %s is returned as `%s`, expected %s' % (k, p.text(), conv[k]))
-            if conv[k] is None and p.text() not in ('True', 'False'):
+            if conv[k] is None and p.text() not in ('True', 'False', 'bool(%s)' % v):
                 ctx.fail(f, p.node, 'a boolean-like value is returned as `%s`, expected the Python bool' % p.text())
             continue
         if p.text() == v or (p.value is not None and v in {n.id for n in ast.walk(p.value) if isinstance(n, ast.Name)} and not isinstance(p.value, ast.Call)):
